@@ -29,6 +29,11 @@ def check(c: Check):
     clause_c(c)
     clause_d(c)
     clause_e(c)
+    from .common import check_nothing_is_swallowed
+    check_nothing_is_swallowed(c, 'C11-g', ['exactly_lib.impls.instructions.multi_phase.environ',
+                                            'exactly_lib.impls.instructions.multi_phase.timeout',
+                                            'exactly_lib.test_case.phases', 'exactly_lib.util.process_execution'], 5,
+                               'a change that is to be made to both sets is made to one only; 0 is a timeout')
     from .common import sweep_records
     sweep_records(c, 'C11-rec', ['exactly_lib.test_case.phases.instruction_settings',
                                  'exactly_lib.util.process_execution.execution_elements',
